@@ -50,7 +50,7 @@ class Unmodelled:
         raise Untranslatable(f"library entry {self._dotted} has no model")
 
     def __getattr__(self, name):
-        if name.startswith("__"):
+        if name.startswith("__") or name.startswith("sym_") or name in ("is_array", "is_int_array", "item"):
             raise AttributeError(name)
         return Unmodelled(f"{self._dotted}.{name}")
 
@@ -803,3 +803,10 @@ ENTRIES["jax.numpy.empty"] = (lambda shape=(), dtype=None: Dummy(shape), "T1")
 @entry("equinox.filter_vmap", tier="T3")
 def m_filter_vmap(f=None, **kw):
     raise Untranslatable("eqx.filter_vmap (needs a contract-level model)")
+
+
+@entry("equinox.field")
+def m_field(default=_MISSING, default_factory=None, converter=None, init=True, static=False, **kw):
+    from .interp import FieldSpec
+
+    return FieldSpec(default, default_factory, converter, init, static)
